@@ -226,7 +226,7 @@ var depExemptions = map[string]string{
 
 func checkC04(p *Prog, r *Report) {
 	r.Rule("R04a", "reference/dependency pairing: wherever the translator embeds a non-constant name as a Gallina global (StructDesc, NewStructLiteral, InterfaceMethodName, conversion to StructName/GallinaIdent/TypeIdent, StructFieldAccessExpr.Struct, StructToInterface*.{Struct,Interface}) and the name can denote a same-package definition, the same value is passed to depTracker.addDep in the same function on every path through the reference; names that are parameters move the obligation to every caller; constant/prelude-prefixed/other-package/binder names are exempt by class", 20)
-	r.Rule("R04b", "name registration: each definition-producing handler registers the final definition name with addName: in funcDecl every store to the declaration's Name precedes the registration of that same field; const/var/type handlers register before producing the declaration", 3)
+	r.Rule("R04b", "name registration: each definition-producing handler registers the final definition name with addName: in funcDecl every store to the declaration's Name precedes the registration of that same field; const/var/type handlers register the name whenever they produce the declaration", 3)
 	r.Rule("R04c", "emission order (the processDecl closure): the generated[id] test-and-set precedes everything; the recursive calls over the dependencies are guarded by nothing but the name-table lookup and precede every append to the output; the outer loops visit every (file, declaration) index unconditionally", 5)
 	r.Rule("R04d", "one naming function: method names are produced only by coq.MethodName (no hand-written \"__\" formatting in the translator); definition site and use sites call it with (receiver type name, method name); self-reference goes through coqRecurFunc", 4)
 	r.Rule("R04e", "mangling injectivity: identifiers containing \"__\" are rejected where definitions are named (otherwise method T.m and function T__m collide)", 1)
@@ -642,13 +642,15 @@ func c04Registration(p *Prog, r *Report) {
 			if kind == "TypeSpec" {
 				want = pk + ".Name.Name"
 			}
-			ok2, why := false, fmt.Sprintf("%s(%s) is called without a dominating addName(%s): the definition is emitted but never registered, so nothing can depend on it", g.Name(), pk, want)
+			ok2, why := false, fmt.Sprintf("%s(%s) is called without addName(%s) on the same path: the definition is emitted but never registered, so nothing can depend on it", g.Name(), pk, want)
 			for _, reg := range regs {
-				if sk(reg.Call.Args[1]) == want && dominatesInstr(reg, c) {
+				// the registration and the production belong together: one is executed whenever the other is,
+				// before or after (same block, or the registration dominates the production)
+				if sk(reg.Call.Args[1]) == want && (dominatesInstr(reg, c) || reg.Block() == c.Block()) {
 					ok2, why = true, ""
 				}
 			}
-			r.Check("R04b", fmt.Sprintf("%s: the %s's name is registered before %s translates it", h.Name(), kind, g.Name()), instrPos(c), ok2, why)
+			r.Check("R04b", fmt.Sprintf("%s: the %s's name is registered when %s translates it", h.Name(), kind, g.Name()), instrPos(c), ok2, why)
 		})
 	}
 	if nProd < 2 {
@@ -724,7 +726,36 @@ func c04Order(p *Prog, r *Report) {
 				recs = append(recs, x)
 			}
 			if bi, ok := x.Call.Value.(*ssa.Builtin); ok && bi.Name() == "append" {
-				appends = append(appends, in)
+				// an appended comment (coq.NewComment: "x from file.go") defines nothing: where it stands
+				// relative to the dependencies does not matter
+				isComment := false
+				if len(x.Call.Args) == 2 {
+					for _, o := range origins(x.Call.Args[1]) {
+						if c2, ok := o.(*ssa.Call); ok && calleeName(c2) == coqPkg+".NewComment" {
+							isComment = true
+						}
+					}
+					if sl, ok := x.Call.Args[1].(*ssa.Slice); ok {
+						if al, ok := sl.X.(*ssa.Alloc); ok {
+							for _, rf := range refs(al) {
+								if ia, ok := rf.(*ssa.IndexAddr); ok {
+									for _, r2 := range refs(ia) {
+										if st, ok := r2.(*ssa.Store); ok {
+											for _, o := range origins(st.Val) {
+												if c2, ok := o.(*ssa.Call); ok && calleeName(c2) == coqPkg+".NewComment" {
+													isComment = true
+												}
+											}
+										}
+									}
+								}
+							}
+						}
+					}
+				}
+				if !isComment {
+					appends = append(appends, in)
+				}
 			}
 		case *ssa.Lookup:
 			if mt, ok := x.X.Type().Underlying().(*types.Map); ok {
